@@ -52,7 +52,30 @@ PINS = {"valid": "abcd1234", "short": "abc1234", "digits": "12345678", "nonalnum
         # 8 bytes once encoded, made of characters that are letters / numerics to Unicode
         "latin1-letter": "abc123ü", "superscripts": "pas1²³", "digits-and-accent": "123456ê",
         "typed-valid": None, "typed-bad-then-valid": None}
+class OperatorGone(BaseException):
+    """Standard input is at its end and stays there: nobody is going to answer."""
+
+
+class Stdin(io.StringIO):
+    """Operator input; once exhausted it reads as end-of-file (as a closed pipe or Ctrl-D does)
+    and, should the program keep asking, the case is ended after 50 further reads."""
+
+    def __init__(self, text):
+        super().__init__(text)
+        self.eofs = 0
+
+    def readline(self, *a):
+        line = super().readline(*a)
+        if line == "":
+            self.eofs += 1
+            if self.eofs > 50:
+                raise OperatorGone()
+        return line
+
+
 ANSWERS = {"yes": "yes\n", "Yes": "Yes\n", "no": "no\n", "n": "n\n",
+           # input ends before anything decisive was said
+           "eof": "", "other-then-eof": "maybe\n", "empty-lines-then-eof": "\n\n",
            "other-then-yes": "maybe\nYES\n", "other-then-no": "x\nNo\n",
            "y-then-no": "y\nno\n", "empty-then-no": "\nn\n"}
 DEVICE_PIN = b"devp1234"
@@ -74,6 +97,9 @@ def grid(tier, seed):
             out.append(dict(st, cmd="unlock", pin=pin, any_pin=anyp, correct=True))
             if pin == "valid":
                 out.append(dict(st, cmd="unlock", pin=pin, any_pin=anyp, correct=False))
+            if pin == "typed-valid" and not anyp:
+                out.append(dict(st, cmd="unlock", pin=pin, any_pin=anyp, correct=True,
+                                swap=True))
         for newpin, anyp, nou in itertools.product(PINS, [False, True], [False, True]):
             out.append(dict(st, cmd="changepin", pin="valid", new_pin=newpin, any_pin=anyp,
                             no_unlock=nou))
@@ -181,6 +207,13 @@ def run_case(c):
     new_queue = list(queue)
 
     def fake_getpass(prompt=""):
+        if c.get("swap") and not typed:
+            # while the prompt waits, the device on the bus is exchanged for a factory-fresh
+            # one: every handle opened so far is dead
+            w.dead_conns = set(range(0, w.conn + 1))
+            w.onboarded = False
+            w.unlocked = False
+            w.mode = BOOT
         # once the operator has settled on a PIN, that is what they type from then on
         if cmd == "onboard" and g.pin_set is not None:
             # the device has been given a PIN: from now on that is the PIN the operator types
@@ -215,7 +248,8 @@ def run_case(c):
     out = io.StringIO()
     exc = None
     saved_stdin = sys.stdin
-    sys.stdin = io.StringIO(ANSWERS.get(c.get("answer", "yes"), "yes\n") + "\n\n")
+    ans_text = ANSWERS.get(c.get("answer", "yes"), "yes\n")
+    sys.stdin = Stdin(ans_text if "eof" in c.get("answer", "") else ans_text + "\n\n")
     saved_unlock = onboard.do_unlock
 
     def unlock_after_replug(options, **kw):
@@ -227,6 +261,8 @@ def run_case(c):
         with contextlib.redirect_stdout(out):
             fn(opts)
     except Exception as e:   # noqa
+        exc = e
+    except OperatorGone as e:
         exc = e
     finally:
         sys.stdin = saved_stdin
@@ -318,6 +354,10 @@ def run_case(c):
                          yes is False, not (pin_given_ok or pin_undecided)])
             nt = fails == 1
             labels.append("onboard:refused")
+    elif cmd == "unlock" and c.get("swap"):
+        # only the invariants over what was sent apply: the device changed under the command
+        labels.append("unlock:device-swapped-at-prompt")
+        nt = c["mode"] == BOOT and c["onb"] is True and c["echo"]
     elif cmd == "unlock":
         pre = c["mode"] == BOOT and c["onb"] is True
         final_pin = opt_pin if PINS[pin_class] is not None else (typed[-1] if typed else None)
@@ -395,7 +435,8 @@ def run_case(c):
 REQUIRED_LABELS = {t: ["onboard:done", "onboard:refused", "unlock:done", "unlock:refused",
                        "unlock:wrong-pin", "changepin:done", "changepin:refused",
                        "pubkeys:written", "pubkeys:refused", "plat:Ledger", "plat:SGX",
-                       "unlock:done-with-typed-pin", "onboard:decided"]
+                       "unlock:done-with-typed-pin", "onboard:decided",
+                       "unlock:device-swapped-at-prompt"]
                    for t in ("quick", "thorough")}
 
 
